@@ -14,6 +14,20 @@ class C10(Prop):
     title = "call_out fires exactly once, on time, and can be cancelled"
     lean_modules = ["NV.C10.Props"]
     theorems = ["NV.C10.N_pow2",
+                "NV.C10.tie_clampDelay",
+                "NV.C10.tie_initCot",
+                "NV.C10.tie_slotExpr",
+                "NV.C10.tie_rotExpr",
+                "NV.C10.tie_handleExpr",
+                "NV.C10.tie_curSlot",
+                "NV.C10.tie_timeLeft",
+                "NV.C10.tie_infoTimeLeft",
+                "NV.C10.tie_sweepOrder",
+                "NV.C10.tie_sweepSlot",
+                "NV.C10.tie_sweepCond",
+                "NV.C10.newCallOut_fst",
+                "NV.C10.newCallOut_snd",
+                "NV.C10.sweepSecond_eq",
                 "NV.C10.slotOf_eq_mod",
                 "NV.C10.dueOf_spec",
                 "NV.C10.dueOf_lt_iff",
@@ -43,6 +57,10 @@ class C10(Prop):
                 "NV.C10.sweepSecond_ok",
                 "NV.C10.sweepLoop_ok",
                 "NV.C10.sweep_ok",
+                "NV.C10.sweepCore_ok",
+                "NV.C10.applyOp_rest",
+                "NV.C10.applyOp_sim",
+                "NV.C10.sweepCore_sim",
                 "NV.C10.stepCmd_rest",
                 "NV.C10.runCmds_rest",
                 "NV.C10.wheel_unique",
@@ -73,7 +91,8 @@ class C10(Prop):
                 "NV.C10.time_left_exact",
                 "NV.C10.handle_unique",
                 "NV.C10.deltas_ok",
-                "NV.C10.handles_fit_int"]
+                "NV.C10.handles_fit_int",
+                "NV.C10.time_left_fits_int"]
     consts = [("calloutCycleSize", "CALLOUT_CYCLE_SIZE")]
     const_headers = ["lib/efuns/options.h"]
     quick_n = 300
@@ -93,9 +112,25 @@ class C10(Prop):
             "call_out/remove/find (by name and handle)/remove-all/destruct/error at top level and inside call_out "
             "callbacks, delays on both sides of the wheel size, tick spacings 0..200 incl. backlog; a case is "
             "non-trivial when its trace has >= 2 lines; distinct = distinct canonical implementation trace")
-    not_covered = ["THIS_PLAYER_IN_CALL_OUT command_giver restoration is not modelled",
-                   "function-pointer call_outs (cop->ob == 0) are not generated",
+    not_covered = ["the O_LISTENER branch of call_out() (the flag is never set in this driver: dead code)",
+                   "reload_object (= remove_all_call_out + variable reset) is exercised only through remove_call_out()",
                    "int overflow of the handle after 2^26 call_outs"]
+
+    def gen_extra(self, ctx, bdir):
+        from props import c10_extract
+        return c10_extract.extract(bdir)
+
+    def canon(self, lines):
+        out = []
+        for l in lines:
+            l = l.rstrip()
+            if l.strip() == "":
+                continue
+            # call_function_pointer's message names the clone ("/c10/obj#3"): reduced to a stable text
+            if l.startswith("err *Owner (") and "of function pointer is destructed" in l:
+                l = "err *fp-owner-destructed"
+            out.append(l)
+        return out
 
     def prepare(self, ctx):
         self.exe = E.compile_harness("c10", [os.path.join(E.VERIF, "harness/c10/c10.c")])
@@ -137,6 +172,24 @@ class C10(Prop):
                           "adv 1", "sweep"])
         mk("long-stall", ["vapply o1 do_op co,0,1,a", "vapply o1 do_op co,1,100,b", "vapply o1 do_op co,2,250,c",
                           "adv 300", "sweep"])
+        # function-pointer call_outs (cop->ob == 0)
+        mk("fp-basic", ["vapply o1 do_op cofp,0,3,a", "vapply o1 do_op co,1,3,b", "vapply o1 do_op info",
+                        "vapply o1 do_op fn,0", "vapply o1 do_op rmn,0", "vapply o1 do_op fh,a", "adv 3", "sweep"])
+        mk("fp-owner-destructed", ["vapply o1 do_op cofp,0,2,a", "vapply o1 do_op co,1,2,b", "vapply o2 do_op co,0,2,c",
+                                    "vapply o2 do_op dest,o1", "vapply o2 do_op info", "adv 2", "sweep", "adv 1", "sweep"])
+        mk("fp-rmall", ["vapply o1 do_op cofp,0,2,a", "vapply o1 do_op cofp,1,40,b", "vapply o2 do_op cofp,0,2,c",
+                        "vapply o1 do_op rmall", "vapply o2 do_op info", "adv 2", "sweep"])
+        mk("fp-rmall-drops-dead", ["vapply o1 do_op cofp,0,5,a", "vapply o2 do_op dest,o1", "vapply o2 do_op rmall",
+                                    "vapply o2 do_op cofp,1,5,b", "vapply o2 do_op info", "adv 5", "sweep"])
+        mk("fp-in-callback", ["vapply o1 set_script co:a cofp,1,32,b;fh,b;rmh,b;cofp,2,1,c", "vapply o1 do_op cofp,0,1,a",
+                              "adv 1", "sweep", "adv 1", "sweep", "adv 40", "sweep"])
+        # THIS_PLAYER_IN_CALL_OUT: command_giver saved by new_call_out, restored for the callback
+        mk("giver-basic", ["gop o2 o1 co,0,2,a", "vapply o1 do_op co,1,2,b", "gop o1 o1 cofp,2,3,c", "adv 3", "sweep"])
+        mk("giver-destructed", ["gop o2 o1 co,0,2,a", "vapply o1 do_op dest,o2", "gop o2 o1 co,1,2,b", "adv 2", "sweep"])
+        mk("giver-inherited-in-callback", ["vapply o1 set_script co:a co,1,1,b;dest,o2;co,2,1,c", "gop o2 o1 co,0,1,a",
+                                           "adv 1", "sweep", "adv 1", "sweep"], nobj=3)
+        mk("giver-restored-after-sweep", ["gop o2 o1 co,0,1,a", "adv 1", "sweep", "vapply o1 do_op co,1,1,b",
+                                          "gop o3 o1 co,2,1,c", "adv 1", "sweep"], nobj=3)
         mk("reschedule-chain", ["vapply o1 set_script co:a co,0,1,b", "vapply o1 set_script co:b co,0,32,c",
                                 "vapply o1 set_script co:c co,0,31,d", "vapply o1 do_op co,0,1,a", "adv 1", "sweep",
                                 "adv 1", "sweep", "adv 32", "sweep", "adv 31", "sweep"])
@@ -146,14 +199,14 @@ class C10(Prop):
         """ops performed by `self_obj`; st tracks tags; returns list of op strings and registers scripts"""
         ops = []
         for _ in range(n):
-            k = rng.weighted([("co", 10), ("rmh", 3), ("rmn", 2), ("fh", 3), ("fn", 2), ("rmall", 1),
+            k = rng.weighted([("co", 8), ("cofp", 4), ("rmh", 3), ("rmn", 2), ("fh", 3), ("fn", 2), ("rmall", 1),
                               ("dest", 1), ("err", 1), ("info", 2)])
-            if k == "co":
+            if k in ("co", "cofp"):
                 st["tag"] += 1
                 tag = "t%d" % st["tag"]
                 st["tags"].setdefault(self_obj, []).append(tag)
                 d = rng.weighted(DELAYS)
-                ops.append("co,%d,%d,%s" % (rng.below(4), d, tag))
+                ops.append("%s,%d,%d,%s" % (k, rng.below(4), d, tag))
                 if depth < 3 and rng.chance(2, 5):
                     sub = self.gen_ops(rng, st, self_obj, depth + 1, rng.range(1, 3))
                     st["scripts"].append("vapply o%d set_script co:%s %s" % (self_obj, tag, ";".join(sub)))
@@ -181,7 +234,10 @@ class C10(Prop):
                     # scripts registered by gen_ops must precede the op that schedules the tag
                     body += st["scripts"]
                     st["scripts"] = []
-                    body.append("vapply o%d do_op %s" % (o, op))
+                    if rng.chance(1, 4):
+                        body.append("gop o%d o%d %s" % (rng.range(1, nobj), o, op))
+                    else:
+                        body.append("vapply o%d do_op %s" % (o, op))
             elif k == "adv":
                 body.append("adv %d" % rng.weighted(ADV))
             elif k == "sweep":
@@ -197,12 +253,16 @@ class C10(Prop):
         return [self.gen_case(rng, "g%d" % i) for i in range(n)]
 
     def histogram(self, cases, impl):
-        h = {"fires": 0, "removes_hit": 0, "removes_miss": 0, "finds": 0, "errors": 0, "dests": 0, "ticks": 0,
+        h = {"fp_schedules": 0, "fp_owner_destructed": 0, "fires": 0, "removes_hit": 0, "removes_miss": 0, "finds": 0, "errors": 0, "dests": 0, "ticks": 0,
              "in_callback_schedules": 0}
         for c in cases:
             for l in impl.get(c.id, []):
                 t = l.split()
-                if len(t) > 1 and t[1] == "fire":
+                if len(t) > 2 and t[2] == "cofp":
+                    h["fp_schedules"] += 1
+                elif l.startswith("err *fp-owner"):
+                    h["fp_owner_destructed"] += 1
+                elif len(t) > 1 and t[1] == "fire":
                     h["fires"] += 1
                 elif len(t) > 2 and t[2] in ("rmh", "rmn"):
                     h["removes_hit" if t[-1] != "-1" else "removes_miss"] += 1
@@ -216,7 +276,7 @@ class C10(Prop):
                     h["ticks"] += 1
             for l in c.lines:
                 if "set_script" in l:
-                    h["in_callback_schedules"] += l.count("co,")
+                    h["in_callback_schedules"] += l.count("co,") + l.count("cofp,")
         return h
 
 
